@@ -15,7 +15,8 @@ from ..rt import Outcome, ev, notrace, conc
 from ..xh import Harness
 from ..main import PropSpec
 
-STATES = ["never-used", "results-unread", "closed", "died-by-exception", "killed-by-signal", "uncooperative-target"]
+STATES = ["never-used", "results-unread", "closed", "died-by-exception", "killed-by-signal", "uncooperative-target",
+          "stuck-writing-end-marker-into-full-pipe"]
 LONG = 300
 
 
@@ -64,8 +65,10 @@ def _run(W, kind, state, chain, pipemode):
     s = W.sim
     thread = wsim.is_thread_kind(kind)
     kw = {}
+    first_pipe = None
     if pipemode:
-        kw["results_pipe"] = utils.Pipe()
+        first_pipe = utils.Pipe()
+        kw["results_pipe"] = first_pipe
     w = W.make(kind, flexi, args=["ok"], name="the-name", userid=42, **kw)
     for inc in range(chain):
         old_id = w.id
@@ -91,6 +94,19 @@ def _run(W, kind, state, chain, pipemode):
         elif st == 5:
             w.enqueue("stuck", 0)
             s.sleep(1)
+        elif st == 6:
+            # caller-supplied pipe that nobody reads and that is full after one result: the child has finished its work (its final
+            # outcome is set) but blocks in _cleanup writing the end-of-results message
+            if not (thread and pipemode and inc == 0):
+                return None, False
+            w.enqueue("ok", "x" * 60)
+            s.sleep(1)
+            ch = first_pipe.parent_end.stdpipe.chan
+            ch.CAPACITY = max(ch.buffered(0), ch.buffered(1)) + 5      # no room left for the end-of-results message
+            w.close()
+            s.sleep(1)
+            if not w.is_alive():
+                return None, False
         # ---- restart
         rkw = {}
         if pipemode:
@@ -98,14 +114,14 @@ def _run(W, kind, state, chain, pipemode):
         try:
             w.restart(timeout=3, **rkw)
         except RuntimeError:
-            if st == 5 and thread:
+            if st in (5, 6) and thread:
                 return None, True          # a stuck thread cannot be stopped: raising is the specified behaviour
             return "c17.restart-raises-RuntimeError", True
         except (Hang, Killed):
             raise
         except Exception as e:  # noqa
             return "c17.restart-raises-%s" % type(e).__name__, True
-        if st == 5 and thread:
+        if st in (5, 6) and thread:
             return "c17.restart-abandons-a-running-child", True
         # ---- the new incarnation
         if not w.is_alive():
@@ -174,7 +190,8 @@ SPEC = PropSpec(
     assumptions=[
         "simulation model of C01; restart(timeout=3) with default terminate arguments; 'killed by signal' = SIGKILL of every child process of the worker; "
         "'uncooperative' = target swallowing every Exception for 300 model seconds",
-        "for the thread kind an uncooperative target cannot be stopped: RuntimeError is the specified outcome",
+        "for the thread kind an uncooperative target cannot be stopped: RuntimeError is the specified outcome; the same holds for a thread worker that has "
+        "finished its work but is blocked writing its end-of-results message into a full caller-supplied pipe (state 6)",
         "old child processes must be gone 5 model seconds after restart() returned",
         "remote kind: optionally the forwarding thread of the first incarnation sleeps 2 model seconds at one of its first 40 statements, so that restart() "
         "meets an old incarnation whose parent-side thread is still finishing",
